@@ -422,7 +422,7 @@ fn selector_plain_part(input: Span) -> PResult<String> {
 
 fn str_plain_part(input: Span<'_>) -> PResult<'_, &str> {
     // TODO: This should probably be based on unicode alphanumeric.
-    map_res(is_not("\r\n\t %<>$\"'\\#+*/()[]{}:;,=!&@~"), input_to_str)
+    map_res(is_not("\r\n\t\u{c} %<>$\"'\\#+*/()[]{}:;,=!&@~"), input_to_str)
         .parse(input)
 }
 
